@@ -333,3 +333,28 @@ def reshape_twin_programs(seed, n, kinds=("abelian", "fermionic"), tids=None):
                 steps.append(rel("blocks" if kind == "abelian" else "same", "C07.roundtrip.twin", nm, f"b{t}"))
         progs.append({"tid": tids(), "inputs": xs, "steps": steps})
     return progs
+
+
+def mixed_fuse_programs(seed, n, syms=gen.SYMS, kinds=("abelian", "fermionic"), tids=None):
+    """The fuse program on an array whose blocks have DIFFERENT element types: the sum of a complex array storing
+    few sectors (possibly the first) and a real one storing all of them, in either order."""
+    tids = tids or gen.Tids()
+    progs = []
+    for i in range(n):
+        rng = gen.rng_for(seed, "fuse-mixed", i)
+        sym = syms[i % len(syms)]
+        kind = kinds[(i // len(syms)) % len(kinds)]
+        p = fuse_program(rng, tids(), sym, kind, maxrank=3)
+        x = p["inputs"]["x"]
+        x["dtype"] = "float64"
+        x["drop"] = []
+        x.pop("phases", None)
+        nsec = len(gen.D.valid_sectors(sym, x["ix"], tuple(x["charge"])))
+        z = dict(x, dtype="complex128", fill={"start": 30, "step": 1, "alt": True})
+        keep = sorted(set([0] if rng.random() < 0.6 else []) | set(rng.sample(range(nsec), rng.randint(1, max(1, nsec // 2))))) if nsec else []
+        z["drop"] = [k for k in range(nsec) if k not in keep]
+        order = ["z", "r"] if rng.random() < 0.6 else ["r", "z"]
+        p["inputs"] = {"r": x, "z": z}
+        p["steps"] = [{"op": "add", "in": order, "out": ["x"], "args": {}}] + p["steps"]
+        progs.append(p)
+    return progs
